@@ -87,9 +87,17 @@ impl FeelZone {
         if let Ok(hours) = hours_match.as_str().parse::<i32>() {
           if let Some(minutes_match) = captures.name("offMinutes") {
             if let Ok(minutes) = minutes_match.as_str().parse::<i32>() {
+              if minutes > 59 {
+                // minutes of the offset are limited to 0..59
+                return None;
+              }
               let mut offset = 3600 * hours + 60 * minutes;
               if let Some(seconds_match) = captures.name("offSeconds") {
                 if let Ok(seconds) = seconds_match.as_str().parse::<i32>() {
+                  if seconds > 59 {
+                    // seconds of the offset are limited to 0..59
+                    return None;
+                  }
                   offset += seconds;
                 }
               }
